@@ -496,7 +496,8 @@ class patched_clock:
             m.current_time_millis = f
 
 
-def check_call(contract, func, kwargs, spec_funcs, describe=None, exc_lattice=None, clock=None):
+def check_call(contract, func, kwargs, spec_funcs, describe=None, exc_lattice=None, clock=None, extra_env=None,
+               ghost_funcs=None, ghost_out_fn=None):
     """Run the REAL function on concrete inputs and evaluate the contract.  Returns None (holds), a Failure,
     or 'skip' when the precondition does not hold for this input."""
     ev = Evaluator(spec_funcs)
@@ -504,7 +505,12 @@ def check_call(contract, func, kwargs, spec_funcs, describe=None, exc_lattice=No
     for v in kwargs.values():
         uni.add(v)
     ev.universe = uni
+    ev.ghost_funcs = dict(ghost_funcs or {})
     env = dict(kwargs)
+    if extra_env:
+        env.update(extra_env)
+        for v in extra_env.values():
+            uni.add(v)
     try:
         for r in contract.requires:
             if not ev.eval(r, env):
@@ -513,6 +519,8 @@ def check_call(contract, func, kwargs, spec_funcs, describe=None, exc_lattice=No
         raise
     snap = Snapshot()
     for v in kwargs.values():
+        snap.visit(v)
+    for v in (extra_env or {}).values():
         snap.visit(v)
     def safe_repr(v):
         try:
@@ -533,6 +541,8 @@ def check_call(contract, func, kwargs, spec_funcs, describe=None, exc_lattice=No
     # post-state universe: add new things
     uni._seen = set()
     for v in kwargs.values():
+        uni.add(v)
+    for v in (extra_env or {}).values():
         uni.add(v)
     uni.add(result)
     for c in snap.conts.values():
@@ -555,10 +565,17 @@ def check_call(contract, func, kwargs, spec_funcs, describe=None, exc_lattice=No
     env2 = dict(env)
     env2['result'] = result
     ghosts = set(getattr(contract, 'ghost_out', {}) or {})
+    if ghost_out_fn is not None and raised is None:
+        got = ghost_out_fn(kwargs, result)
+        for k_, v_ in got.items():
+            env2[k_] = v_
+            uni.add(v_)
+            ghosts.discard(k_)
     if clock is not None and 'now' in ghosts:
         env2['now'] = clock
         ghosts.discard('now')
-    for i, e in enumerate(contract.ensures):
+    all_ens = contract.all_ensures() if hasattr(contract, 'all_ensures') else contract.ensures
+    for i, e in enumerate(all_ens):
         if ghosts and any(isinstance(x, ast.Name) and x.id in ghosts for x in ast.walk(ast.parse(e.strip(), mode='eval'))):
             continue      # clause mentions a function-local ghost (e.g. the clock value read inside): not evaluable
         try:
